@@ -89,7 +89,7 @@ def tasks(tier):
             'dep:C04:accel']
     return ['frames:%s' % m for m in mods] + ['reorder', 'wiring',
                                               'refresh', 'scratch',
-                                              'canary'] + deps
+                                              'threads', 'canary'] + deps
 
 
 def run_task(task, ctx):
@@ -138,6 +138,8 @@ def run_task(task, ctx):
         return task_wiring(ctx, repo)
     if task == 'scratch':
         return task_scratch(ctx, repo)
+    if task == 'threads':
+        return task_threads(ctx)
     if task == 'canary':
         d = z3.Int('d')
         ctx.canary('canary.must_fail', Obligation('c', [d >= 0],
@@ -147,6 +149,75 @@ def run_task(task, ctx):
                                 failing=[], replay=None, info=''))
         return
     raise ValueError(task)
+
+
+THREADS = r"""
+import json, os, sys
+d = json.load(sys.stdin)
+if d.get('built'): sys.path.insert(0, d['built'])
+import numpy as np
+out = {}
+for name, before, after in (('same_count', 4, 4), ('raised_after_construction', 1, 4), ('lowered_after_construction', 4, 1)):
+    rd, wr = os.pipe()
+    pid = os.fork()
+    if pid == 0:
+        os.close(rd)
+        msg = ''
+        try:
+            from pysph.base.utils import get_particle_array
+            from pysph.base import nnps
+            from pysph.base.nnps_base import set_number_of_threads
+            from cyarray.api import UIntArray
+            rng = np.random.RandomState(2)
+            n = 400
+            pa = get_particle_array(name='a', x=rng.rand(n), y=rng.rand(n), h=0.05 * np.ones(n))
+            set_number_of_threads(before)
+            nn = nnps.LinkedListNNPS(dim=2, particles=[pa], radius_scale=2.0, cache=True)
+            set_number_of_threads(after)
+            nn.update(); nn.set_context(0, 0)
+            nn.cache[0].find_all_neighbors()
+            nb = UIntArray(); wrong = 0
+            for i in range(n):
+                nn.get_nearest_particles(0, 0, i, nb)
+                d2 = (pa.x - pa.x[i]) ** 2 + (pa.y - pa.y[i]) ** 2
+                want = set(np.where(d2 < 0.01 * (1 - 1e-9))[0].tolist())
+                got = nb.get_npy_array().tolist()
+                if len(got) != len(set(got)) or (set(got) ^ want) - set(np.where(np.abs(d2 - 0.01) <= 1e-11)[0].tolist()):
+                    wrong += 1
+            if wrong: msg = '%d of %d neighbour lists wrong' % (wrong, n)
+        except Exception as e:
+            msg = 'raised %s: %s' % (type(e).__name__, str(e)[:200])
+        os.write(wr, msg.encode()[:500]); os._exit(1 if msg else 0)
+    os.close(wr)
+    _, st = os.waitpid(pid, 0)
+    msg = os.read(rd, 600).decode(); os.close(rd)
+    if os.WIFSIGNALED(st): out[name] = 'process killed by signal %d' % os.WTERMSIG(st)
+    elif os.WEXITSTATUS(st): out[name] = msg or 'failed'
+    else: out[name] = None
+print(json.dumps(out))
+"""
+
+
+def task_threads(ctx):
+    """BOUNDED stand-in, never counted as proved: 'with any thread count'.
+    A cached neighbour search filled by all threads (find_all_neighbors, as
+    the compiled evaluator does), with the OpenMP thread count unchanged,
+    raised and lowered after the search object was built."""
+    import os
+    if os.environ.get('PYVC_NO_BUILD_REPLAY'):
+        ctx.note('thread scenarios skipped: PYVC_NO_BUILD_REPLAY set')
+        return
+    dst, msg = native.shared_build()
+    if dst is None:
+        raise RuntimeError('extensions could not be built: %s' % msg)
+    r = native.run_venv(THREADS, dict(built=dst), timeout=900, cwd='/tmp')
+    for name, bad in r.items():
+        ctx.bounded_check(
+            'threads.' + name, 'LinkedListNNPS(cache=True), 400 random '
+            'points in 2-D, h = 0.05, thread count 4 -> 4, 1 -> 4, 4 -> 1 '
+            'between construction and update(); every list compared with '
+            'the definition', 1, bad is None,
+            bad or 'all neighbour lists exact')
 
 
 def task_frames(ctx, repo, mn):
